@@ -255,7 +255,7 @@ Theorem C03_field_assign_rejected name v sp tvars bfields k b bname bv bkind bdt
        SDefinition dname dvar dkind dty (plug_e e stm C) dsp :: post)) <> Ok tt.
 Proof.
   intros Rb Hin Ht Ll Rl Sh stm e pre mid1 mid2 post dname dvar dkind dty C dsp fuel vars HC.
-  apply typecheck_notok. intros s W. unfold solve. apply bind_notok_l.
+  apply typecheck_notok_main. intros s W.
   set (kinds := kinds_of vars 1 (PositiveMap.empty varkind)).
   pose proof (gfix_pres fuel) as PG. pose proof (afix_pres kinds (gfix fuel) PG fuel) as PA.
   apply (iterM_notok_after2 _ (blob_sig v k b) (var_field bv k b)); try assumption.
